@@ -1,12 +1,16 @@
 /* C10 / C11: TinyJAMBU-Hash equals the MDPH model.
  * -DN=len -DC1=a -DC2=b : message of N symbolic bytes fed as update(C1), update(C2), update(N-C1-C2)
  *   (C1 = C2 = 0 still issues the zero-length updates, the first with a NULL pointer)
+ * -DREINIT_PRE=k : after init, k arbitrary bytes are absorbed and the state is restarted with tinyjambu_hash_reinit()
  * -DONESHOT : use tinyjambu_hash() instead (its local state object is uninitialised memory)
  * (arbitrary prior contents / padding of the state object are covered by C11's init and step lemmas) */
 #include "verif.h"
 #include "TinyJAMBU.h"
 #include "tj_spec.h"
 IN_DECL(msg, N);
+#ifdef REINIT_PRE
+IN_DECL(junk, REINIT_PRE);
+#endif
 
 VERIF_MAIN_BEGIN
     unsigned char *msg, *out;
@@ -20,6 +24,9 @@ VERIF_MAIN_BEGIN
         tinyjambu_hash_state_t st_obj, *st = &st_obj;   /* typed object: see DESIGN 5.2 */
         for (unsigned i = 0; i < 7; ++i) st->s[i] = 0;   /* typed writes only (DESIGN 5.2) */
         tinyjambu_hash_init(st);
+#ifdef REINIT_PRE   /* an abandoned message of REINIT_PRE arbitrary bytes, then reinit: the digest is that of the new message alone */
+        { unsigned char *junk; IN_BYTES(junk, junk, REINIT_PRE); tinyjambu_hash_update(st, junk, REINIT_PRE); tinyjambu_hash_reinit(st); }
+#endif
         tinyjambu_hash_update(st, C1 ? msg : 0, C1);
         tinyjambu_hash_update(st, N ? msg + C1 : 0, C2);
         tinyjambu_hash_update(st, N ? msg + C1 + C2 : 0, N - C1 - C2);
